@@ -49,6 +49,10 @@ pub struct CutCase {
     pub split: usize,
     /// the application's tail: how many extra rounds of healthy traffic + calls after the cut
     pub rounds: usize,
+    /// error kind writes to the victim fail with: 0 = BrokenPipe (EPIPE), 1 = ConnectionReset
+    /// (after an RST), 2 = TimedOut, 3 = ConnectionAborted
+    #[serde(default)]
+    pub write_err: u8,
 }
 
 pub fn victim_stream(kind: Kind, msgs: &[Vec<usize>]) -> (Vec<u8>, usize, Vec<usize>, Vec<Option<Frames>>) {
@@ -165,7 +169,16 @@ pub fn cut_outcome(c: &CutCase) -> Outcome {
             let admitted = matches!(sim.out(va), Some(Out::Attach(Ok(_))));
             let vid: Option<Vec<u8>> = if let Some(Out::Attach(Ok(id))) = sim.out(va) { Some(id.clone()) } else { None };
             if c.cut != CutKind::CloseStillWritable {
-                victim.from_lib.break_writer(std::io::ErrorKind::BrokenPipe);
+                let kind = match c.write_err % 4 {
+                    0 => std::io::ErrorKind::BrokenPipe,
+                    1 => std::io::ErrorKind::ConnectionReset,
+                    2 => std::io::ErrorKind::TimedOut,
+                    _ => std::io::ErrorKind::ConnectionAborted,
+                };
+                if c.write_err % 4 != 0 {
+                    classes.push("write-error-other-than-EPIPE".into());
+                }
+                victim.from_lib.break_writer(kind);
             }
             let mid_msg = pos > hs && !ends.contains(&pos);
             if pos < hs {
@@ -667,19 +680,23 @@ pub fn enumerated() -> Vec<CutCase> {
                             victim_msgs: msgs.clone(),
                             split,
                             rounds: 1,
+                            write_err: if cut == CutKind::Reset { 1 } else { 0 },
                         });
                     }
                 }
             }
-            v.push(CutCase {
-                kind,
-                healthy,
-                cut: CutKind::WriteError,
-                pos: usize::MAX,
-                victim_msgs: msgs.clone(),
-                split: 0,
-                rounds: 1,
-            });
+            for write_err in 0..4u8 {
+                v.push(CutCase {
+                    kind,
+                    healthy,
+                    cut: CutKind::WriteError,
+                    pos: usize::MAX,
+                    victim_msgs: msgs.clone(),
+                    split: 0,
+                    rounds: 1,
+                    write_err,
+                });
+            }
         }
     }
     v
@@ -709,6 +726,7 @@ pub fn gen_cut(s: &mut Src<'_>) -> CutCase {
         victim_msgs,
         split: s.pick(&[0usize, 0, 1, 30, 64, 90, 100]),
         rounds: s.range(0, 3),
+        write_err: s.pick(&[0u8, 0, 1, 1, 2, 3]),
     }
 }
 
@@ -754,10 +772,11 @@ pub fn run(ctx: &Ctx) -> (Report, PropertyMeta) {
     health(&mut report, "cut-inside-message", total, 150);
     health(&mut report, "cut-inside-handshake", total, 100);
     health(&mut report, "end-observed", total, 300);
+    health_abs(&mut report, "write-error-other-than-EPIPE", 300);
 
     let meta = PropertyMeta {
         level: "fault_enumeration",
-        rule: "every socket type with 1..3 healthy raw peers and one victim whose connection ends at an enumerated / generated byte position of its stream (inside the greeting, between greeting and READY, inside READY, between messages, inside flags / size / body, between frames of a multipart message) by orderly close (EOF; writes fail afterwards, or - as with a TCP FIN - still succeed), reset (read error, writes fail) or write-only failure, followed by rounds of healthy-peer traffic and application calls (recv until pending; sends that rotate onto / address the victim; publishes). Oracle: (a) every healthy peer's message is still delivered exactly once in order, publishes reach healthy subscribers, successful sends land on healthy peers, and only the victim's COMPLETE messages surface; (b) recv reports at most one error for the event and the socket always reaches quiescence; (c) once the socket has observed the end (a read returned EOF/error or a write failed) no send fails because it was routed to that peer, and ROUTER send to its identity fails; (d) after observation both connection halves the library held are dropped; a connection that ends during the handshake is never admitted and is released. Real transports: after N connect-handshake-talk-disconnect cycles over TCP and IPC against a long-lived socket of every type the process's open-descriptor count and the runtime's alive-task count are within a constant of their values after 10 cycles. Non-trivial = cut strictly inside a message or inside the handshake; distinct by case".into(),
+        rule: "every socket type with 1..3 healthy raw peers and one victim whose connection ends at an enumerated / generated byte position of its stream (inside the greeting, between greeting and READY, inside READY, between messages, inside flags / size / body, between frames of a multipart message) by orderly close (EOF; writes fail afterwards, or - as with a TCP FIN - still succeed), reset (read error, writes fail) or write-only failure (writes fail with EPIPE, ECONNRESET, ETIMEDOUT or ECONNABORTED), followed by rounds of healthy-peer traffic and application calls (recv until pending; sends that rotate onto / address the victim; publishes). Oracle: (a) every healthy peer's message is still delivered exactly once in order, publishes reach healthy subscribers, successful sends land on healthy peers, and only the victim's COMPLETE messages surface; (b) recv reports at most one error for the event and the socket always reaches quiescence; (c) once the socket has observed the end (a read returned EOF/error or a write failed) no send fails because it was routed to that peer, and ROUTER send to its identity fails; (d) after observation both connection halves the library held are dropped; a connection that ends during the handshake is never admitted and is released. Real transports: after N connect-handshake-talk-disconnect cycles over TCP and IPC against a long-lived socket of every type the process's open-descriptor count and the runtime's alive-task count are within a constant of their values after 10 cycles. Non-trivial = cut strictly inside a message or inside the handshake; distinct by case".into(),
         assumptions: vec![
             "a closed connection is modelled as EOF on reads plus BrokenPipe on writes (a fully closed TCP peer); half-close is not generated".into(),
             "'observed' is measured at the pipe: a read returned the end marker or a write returned the injected error".into(),
